@@ -1481,7 +1481,8 @@ def _idna_encode(host: str) -> str:
     try:
         return idna.encode(host, uts46=True).decode("ascii")
     except UnicodeError:
-        return host.encode("idna").decode("ascii")
+        # the IDNA 2003 codec passes ASCII labels through as written
+        return host.encode("idna").decode("ascii").lower()
 
 
 @lru_cache(_DEFAULT_ENCODE_SIZE)
